@@ -55,8 +55,11 @@ def items(tier, seed):
                 if tier == "quick" and N >= 5 and b > a:
                     continue          # quick tier: one of each mirror pair of compositions
                 out.append(dict(name="N%d_p%d_n%d" % (N, a, b), N=N, npos=a, nneg=b, site=False))
-        if tier == "thorough" and N >= 2:
-            out.append(dict(name="N%d_site" % N, N=N, npos=1, nneg=1, site=True))
+        if N >= 5:
+            # objects with phosphosites registered in non-ascending order
+            out.append(dict(name="N%d_sites" % N, N=N, npos=1, nneg=1, site=[N - 1, 2]))
+        elif tier == "thorough" and N >= 2:
+            out.append(dict(name="N%d_site" % N, N=N, npos=1, nneg=0, site=[N]))
     out.sort(key=lambda i: -i["N"])
     return out
 
@@ -81,21 +84,22 @@ def run_item(item):
     N, a, b = item["N"], item["npos"], item["nneg"]
     vs, s = sym_sequence(I, N)
     I.solver.add(composition(vs, a, b))
-    if item.get("site"):
-        I.solver.add(in_set(vs[N - 1], T.STY))
+    sites = item.get("site") or []
+    for p_ in sites:
+        I.solver.add(in_set(vs[p_ - 1], T.STY))
     usable = [q for q in QUERIES if not (q[0].startswith("get_linear") and q[1] and isinstance(q[1][0], int) and q[1][0] > N) and not (q[2].get("blobLen", 0) > N)]
     prelude = std_prelude(N, a, b)
     state = {}
 
     def fresh():
         sp = I.call(SequenceParameters, [s], {})
-        if item.get("site"):
-            I.call(sp.set_phosphosites, [N], {})
+        if sites:
+            I.call(sp.set_phosphosites, [list(sites)], {})
         return sp
 
     def cex_for(mode, qi):
         def f(m):
-            return dict(seq=seq_of_model(m, vs), mode=mode, query=qi, site=bool(item.get("site")), prelude=prelude)
+            return dict(seq=seq_of_model(m, vs), mode=mode, query=qi, site=list(sites), prelude=prelude)
         return f
 
     def thunk():
@@ -124,7 +128,7 @@ def run_item(item):
                 ob.prove(zbool(e) if not isinstance(e, bool) else e, lab, cex_for(mode, QUERIES.index(q)))
         for mode, o in (("forward", of), ("reverse", ob_)):
             e1 = sym_equal(I, o.SeqObj.seq, s)
-            want_sites = [N - 1] if item.get("site") else []
+            want_sites = [p_ - 1 for p_ in sites]
             e2 = sym_equal(I, list(o.SeqObj.phosphosites), want_sites)
             ob.prove(z3.And(zbool(e1), zbool(e2)) if not (isinstance(e1, bool) and isinstance(e2, bool)) else (e1 and e2),
                      "%s chain leaves the stored sequence and phosphosite list unchanged (%s)" % (mode, item["name"]), cex_for(mode, -1))
@@ -138,8 +142,8 @@ def run_item(item):
                 continue
             try:
                 sp = SequenceParameters(q0)
-                if item.get("site"):
-                    sp.set_phosphosites(N)
+                if sites:
+                    sp.set_phosphosites(list(sites))
                 nat = getattr(sp, q[0])(*q[1], **q[2])
                 got = concrete(m, R[qi])
                 if deep_close(_plain(got), _plain(nat), 1e-9):
@@ -179,7 +183,7 @@ def native_history(cex):
     def fresh():
         sp = SequenceParameters(seq)
         if cex.get("site"):
-            sp.set_phosphosites(N)
+            sp.set_phosphosites(list(cex["site"]))
         return sp
 
     def run(sp, q):
@@ -197,7 +201,7 @@ def native_history(cex):
             if not deep_close(V[i], ref[i], TOL):
                 problems.append("%s: %s returned %s, fresh object returns %s" % (mode_, qname(q), str(V[i])[:120], str(ref[i])[:120]))
     for mode_, o in (("forward", of), ("reverse", ob_)):
-        if o.get_sequence() != seq or o.get_phosphosites() != ([N] if cex.get("site") else []):
+        if o.get_sequence() != seq or o.get_phosphosites() != list(cex.get("site") or []):
             problems.append("%s chain changed the object: sequence %r phosphosites %r" % (mode_, o.get_sequence(), o.get_phosphosites()))
     return problems
 
